@@ -201,6 +201,22 @@ int main(int argc, char **argv) {
     g_all = mc_shalloc(spec_numcells(fullmax) * 6 * 8);
     for (int r = 0; r <= 2; r++) dom_full(r, &g_cand);
     dom_idx(mc_thorough, &g_cand);
+    // owners that are NOT cells although every field looks plausible: the deleted sub-sequence of every pentagon base cell (first non-zero
+    // digit 1) at resolutions 1..6, followed by centre digits or by a varied tail; base cells 122..127; a digit 7 inside the resolution
+    for (int b = 0; b < 12; b++)
+        for (int r = 1; r <= 6; r++)
+            for (int pos = 0; pos < r; pos++)
+                for (int tail = 0; tail < 3; tail++) {
+                    int d[15] = {0};
+                    d[pos] = 1;
+                    for (int q = pos + 1; q < r; q++) d[q] = tail == 0 ? 0 : tail == 1 ? 3 : (q & 1 ? 6 : 2);
+                    uv_push(&g_cand, spec_mk(r, SPEC_PENT_BC[b], d));
+                }
+    for (int bc = 122; bc < 128; bc++)
+        for (int r = 0; r <= 3; r++) {
+            int d[15] = {0};
+            uv_push(&g_cand, spec_mk(r, bc, d));
+        }
     for (size_t i = 0; i < g_cand.n; i++) {
         uint64_t c = (g_cand.v[i] & ~((uint64_t)0xff << 56)) | ((uint64_t)1 << 59);
         if (spec_valid(c) && spec_res(c) > 2) uv_push(&g_dom, c);
